@@ -59,6 +59,8 @@ static long read_hunk_header(FILE *in)
 
   for (n = 0; n < table_length; n++)
   {
+    if (feof(in)) { break; }
+
     //uint32_t size = read_int32(in);
     read_int32(in);
 
@@ -115,6 +117,13 @@ int read_amiga(const char *filename, Memory *memory)
   while (running == 1)
   {
     uint32_t hunk_type = read_int32(in);
+
+    // Ran off the end of the file without finding a code hunk.
+    if (feof(in))
+    {
+      fclose(in);
+      return -1;
+    }
 
     long marker = ftell(in);
 
